@@ -202,3 +202,73 @@ def replay_e1_kernel(detail):
 
 
 KINDS['e1_kernel'] = replay_e1_kernel
+
+
+def replay_h_rel(detail):
+    """Two presentations of the same call on the real stack (real joblib for n_jobs > 1)."""
+    repo.load()
+    outs, lines = [], []
+    for key in ('scenario', 'scenario2'):
+        cs = detail[key]
+        L, R = scenario.real_frames(cs)
+        tok = scenario.real_tokenizer(cs)
+        lines.append('%s: entry=%s filter=%s n_jobs=%r threshold=%r op=%s\nleft:\n%s\nright:\n%s' % (
+            key, cs['entry'], cs.get('filter'), cs['n_jobs'], cs['threshold'], cs['comp_op'],
+            L.to_string(), R.to_string()))
+        try:
+            out = scenario.call_entry(cs, L, R, tok)
+        except Exception as e:
+            lines.append('call raised %s: %s' % (type(e).__name__, e))
+            return True, '\n'.join(lines)
+        lines.append('result:\n%s' % out.to_string())
+        outs.append(oracle.Result.of(out))
+    a, b = outs
+
+    def wo_id(r):
+        j = r.columns.index('_id') if '_id' in r.columns else None
+        return oracle.Result([c for i, c in enumerate(r.columns) if i != j],
+                             [tuple(v for i, v in enumerate(row) if i != j) for row in r.rows])
+    bad = a.columns != b.columns or scenario.norm_rows(wo_id(a)) != scenario.norm_rows(wo_id(b))
+    if '_id' in b.columns and [int(x) for x in b.col('_id')] != list(range(len(b.rows))):
+        bad = True
+    if detail.get('compare') != 'multiset' and bad:
+        # only qualifying pairs must agree
+        w = scenario.ConcreteWorld()
+        bad = False
+        for cs, r in ((detail['scenario'], a), (detail['scenario2'], b)):
+            for v in oracle.check_join_output(scenario.concrete_tables(cs), w, r):
+                if v[0] in ('C01', 'C04'):
+                    lines.append('oracle: %s/%s: %s' % v)
+                    bad = True
+    lines.append('presentations %s' % ('DIFFER' if bad else 'agree'))
+    return bool(bad), '\n'.join(lines)
+
+
+KINDS['h_rel'] = replay_h_rel
+
+
+def replay_e1_split(detail):
+    repo.load()
+    gh = repo.mod('utils.generic_helper')
+    n, k = detail['n'], detail['k']
+    table = list(range(n))
+    chunks = gh.split_table(table, k)
+    flat = [x for ch in chunks for x in ch]
+    lines = ['split_table(list(range(%d)), %d) -> %r' % (n, k, chunks)]
+    bad = flat != table
+    lines.append('concatenation %s the table' % ('DIFFERS from' if bad else 'equals'))
+    if bad and n <= 400:
+        # API level: overlap_join with n_jobs=k on n right rows must return n pairs
+        import pandas as pd
+        from py_stringmatching import WhitespaceTokenizer
+        ssj = repo.mod('')
+        L = pd.DataFrame({'id': list(range(n)), 'attr': pd.Series(['w%05d' % i for i in range(n)], dtype=object)})
+        R = pd.DataFrame({'id': list(range(1000, 1000 + n)), 'attr': pd.Series(['w%05d' % i for i in range(n)], dtype=object)})
+        out = ssj.overlap_join(L, R, 'id', 'id', 'attr', 'attr', WhitespaceTokenizer(return_set=True), 1,
+                               n_jobs=k, show_progress=False)
+        lines.append('overlap_join of %d identical rows with n_jobs=%d returned %d rows (expected %d)' % (
+            n, k, len(out), n))
+    return bad, '\n'.join(lines)
+
+
+KINDS['e1_split'] = replay_e1_split
